@@ -12,6 +12,13 @@ PROPS = {
         "level_note": _COMMON_NOTE + "u64 version overflow is out of scope (unbounded Nat). The system-level statement (any delivery order) follows because every delivered node delta satisfies KvsLeMax (C09_decoded_delta_wf) and apply only touches the addressed copy.",
         "assumptions": ["u64 version overflow (2^64 writes) is out of scope: versions are unbounded naturals in the model"],
     },
+    "C05": {
+        "suites": ["cluster", "pair"],
+        "level_text": "C05_owner_rejects / C05_owner_unchanged (the owner refuses every delta that is not ahead of it), C05_delta_keeps_self (whole deltas, distinct members), C05_report_keeps_self / C05_digest_keeps_self (heartbeat reports never touch the local copy, even if the digest names it), C05_tick, C05_ack_keeps_namespace; tied to lib.rs/state.rs by the cluster suite, where an independent reference map of each node's own namespace is compared with the real own copy after every delivered message.",
+        "level_note": _COMMON_NOTE + "PARTIAL: the hypothesis NotAhead (no delta about X runs ahead of X) is C03's statement; its system-level induction over arbitrary schedules is not yet mechanised (checked by the ledger monitor on every generated schedule). Assumes one incarnation per ChitchatId.",
+        "assumptions": ["every ChitchatId is used by one incarnation"],
+        "partial": "system-level induction for the NotAhead hypothesis (C03) not mechanised",
+    },
     "C06": {
         "suites": ["node"],
         "level_text": "Refinement theorem C06_refines (every operation sequence from the empty state: implementation map = reference map, invariant kept) via C06_step_refines; reads determined by the abstraction (C06_get, C06_contains, C06_keyValues_exact/_sorted, C06_iterPrefix_exact/_sorted incl. the prefix-contiguity lemma); C06_delete_invisible, C06_delete_absent_noop, C06_ttl_visible, C06_gc_exact, C06_gc_watermark. Tied to state.rs by exhaustive short and random long op sequences with all reads compared after every op.",
@@ -38,11 +45,50 @@ PROPS = {
         "assumptions": ["the members known to the node fit a digest in one datagram (property's proviso)"],
         "partial": "reply-computation assertions covered by correspondence only",
     },
+    "C10": {
+        "suites": ["fd", "cluster"],
+        "level_text": "C10_complete (any window respecting max_interval, any history: silent longer than phi_threshold x max(max_interval, initial_interval) => not alive), C10_reported_dead (through update_node_liveness), C10_needs_two / C10_no_window_not_live / C10_first_report_no_interval; window invariant preserved by every report (Lemmas/FD). Tied to failure_detector.rs by heartbeat-arrival histories over configurations (theta 0.5..16, windows 1..1000, three orders of magnitude of intervals) with window contents, live/dead sets compared after every step.",
+        "level_note": _COMMON_NOTE + "PARTIAL: exact rational arithmetic in the model vs f64 in the code; the harness nudges the clock by one tick when the exact margin is within 1e-9 of a tie (counted in the evidence) so that rounding cannot be observed.",
+        "assumptions": ["f64 phi computation agrees with exact arithmetic outside a 1e-9 relative tie band"],
+        "partial": "exact arithmetic instead of f64",
+    },
+    "C11": {
+        "suites": ["fd", "cluster", "apply"],
+        "level_text": "C11_stale_is_noop (an equal/lower heartbeat changes nothing: copies, failure detector, GC memory), C11_window_only_on_fresh (the sampling window only ever sees values strictly above a known non-zero heartbeat), C11_one_report_not_alive, C11_steady_alive (intervals >= a, last fresh heartbeat <= b old, theta >= b/min(a, initial) => alive), C11_reset_keeps_heartbeat (F-5 repair); tied by the fd/cluster/apply suites incl. replayed, lower and relayed heartbeats around gossip resets.",
+        "level_note": _COMMON_NOTE + "PARTIAL: exact arithmetic vs f64 (see C10).",
+        "assumptions": ["f64 phi computation agrees with exact arithmetic outside a 1e-9 relative tie band"],
+        "partial": "exact arithmetic instead of f64",
+    },
+    "C12": {
+        "suites": ["cluster", "fd"],
+        "level_text": "C12_evalLiveness_inv (live/dead disjoint, local node never dead), C12_partition_after_eval, C12_self_always_live, C12_self_never_removed, C12_quarantine_digest / C12_quarantine_delta / C12_scheduled_iff, C12_removed_at_grace, C12_remove_remembers_heartbeat, C12_recreate_guard, C12_delta_never_creates, C12_catchup_never_recreates, C12_recreated_is_dead; tied by cluster schedules with clock advances around grace/2 and grace, survivors that keep advertising the dead member, node GC and re-creation.",
+        "level_note": _COMMON_NOTE + "PARTIAL: `dead_node_grace_period.div_f32(2.0)` is modelled as exact halving (generated grace periods are exactly halvable in f32); the LRU memory of 500 removed members is a bounded list.",
+        "assumptions": ["grace periods exactly halvable in f32"],
+        "partial": "f32 half-grace boundary modelled exactly",
+    },
+    "C13": {
+        "suites": ["cluster"],
+        "level_text": "C13_publishStep_inv, C13_value_exact (after every evaluation the held value has exactly the live members passing the predicate, each snapshot with the member's current max version), C13_publish_if, C13_publish_on_predicate_change (F-6 repair vs the unrepaired step); tied by cluster schedules with key-based predicates whose outcome changes with and without max-version changes; watch value and publication count compared after every step.",
+        "level_note": _COMMON_NOTE + "tokio watch channel semantics (a value held, replaced by send) are assumed.",
+        "assumptions": [],
+    },
     "C14": {
         "suites": ["pair"],
         "level_text": "Theorems for all sender copies, receiver copies and truncation points with no invariant assumed (C14_offer_iff, C14_reset_iff, C14_never_refused, C14_strict_progress, C14_nonempty_progress); model tied to compute_partial_delta_respecting_mtu / apply_delta by the exhaustive frontier sweep with exact-fit budgets at every truncation point.",
         "level_note": _COMMON_NOTE + "The theorems are about senderNodeDelta (the abstract emission); C07_content links computeDelta's byte-budgeted output to it.",
         "assumptions": ["the byte budget is exercised through exact-fit budgets for every truncation point; theorems quantify over every admission behaviour"],
+    },
+    "C16": {
+        "suites": ["cluster"],
+        "level_text": "C16_bad_cluster (a foreign SYN yields exactly the ticked node and a BadCluster reply), C16_tick_only_self_heartbeat, C16_badcluster_reply_inert, C16_no_data_in_reply; tied by two-cluster schedules with cross-initiated handshakes and cluster ids that are empty / prefixes / case variants of each other.",
+        "level_note": _COMMON_NOTE + "The two-cluster statement relies on the network assumption that a reply reaches the node the request came from and that an address belongs to one node for the run.",
+        "assumptions": ["an address belongs to one node for the whole run"],
+    },
+    "C18": {
+        "suites": ["catchup"],
+        "level_text": "C18_no_panic_monotone (every existing copy x every supplied state: succeeds; copy untouched or frontier strictly raised), C18_not_live (live/dead untouched, at most an empty window created), C18_no_recreate, C18_keys_subset; tied to lib.rs by an exhaustive small-scope sweep of copy shapes (absent, remembered-as-collected, empty, mid-reset, ahead, behind) x supplied (max, gc) x random key sets.",
+        "level_note": _COMMON_NOTE,
+        "assumptions": [],
     },
     "C20": {
         "suites": ["apply", "pair"],
